@@ -301,6 +301,10 @@ def std_stages(tier, seed, battery, closed=("split", "long"), kinds_random=None,
         for kind, u in (("uint8", "fan1"), ("alpha/bytes", "fan64")):
             st.append(Stage("sim", kind, u, size, battery, num=(2 if q else 8), depth=(300 if q else 600), ramp=True,
                             invs=["SizeOK", "AllOK"], every=False, batevery=1, protect=False, fillcap=16, floor=2))
+        # churn INSIDE one size class (the node is never rebuilt): slots / lanes freed and taken again many times over
+        for kind, u, cap, floor in (("uint8", "fan18", 14, 5), ("uint8", "fan64", 30, 18), ("alpha/bytes", "fan64", 64, 40)):
+            st.append(Stage("sim", kind, u, size, battery, num=(2 if q else 8), depth=(300 if q else 600), ramp=True,
+                            invs=["SizeOK", "AllOK"], every=False, batevery=2, protect=False, fillcap=cap, floor=floor))
         # short cycles through the 4- and 16-slot capacities with extreme-key churn
         st.append(Stage("sim", "uint8", "fan18", size, battery, num=(3 if q else 12), depth=(300 if q else 600), ramp=True,
                         invs=["SearchOK", "SizeOK", "AllOK", "MinMaxOK", "WFOK"], every=False, batevery=1))
@@ -438,6 +442,14 @@ def check_C04(work, prop, tier, seed, t0):
                 invs=["SizeOK"], every=False),
           Stage("model", "collation/string/und", "textq", "q", bat)]
     st.append(Stage("arena", "alpha/bytes", "prefix", "q", "prefix=6", n=(3 if q else 12), len=(40 if q else 90)))
+    # branch points below a compressed path LONGER than the inline limit (the comparison consults a leaf): closed for 6
+    # continuations; 20 continuations churned inside the 48-slot class with the smallest / largest child deleted eagerly
+    st.append(Stage("model", "alpha/string", "lfan", size, bat))
+    st.append(Stage("sim", "alpha/string", "lfan20", size, bat, num=(2 if q else 8), depth=(260 if q else 520), ramp=True,
+                    invs=["SizeOK"], every=False, batevery=1, protect=False, fillcap=20, floor=14))
+    st.append(Stage("sim", "alpha/bytes", "lfan20", size, bat, num=(1 if q else 6), depth=(260 if q else 520), ramp=True,
+                    invs=["SizeOK"], every=False, batevery=2))
+    st.append(Stage("suite", "suite", "repository-tests", size, bat, max=(1500 if q else 0), proj=(3 if q else 6)))
     for k in ["alpha/string", "alpha/bytes"]:
         st.append(Stage("random", k, "random", size, bat, n=(6 if q else 40), len=(50 if q else 120), batevery=2))
         st.append(Stage("random", k, "prefix", size, bat, n=(4 if q else 20), len=(40 if q else 100), batevery=2))
@@ -735,8 +747,8 @@ def check_C07(work, prop, tier, seed, t0):
     for vname, drv in variants:
         out = work.path("codec-%s.ndjson" % vname)
         stf = work.path("codec-%s.json" % vname)
-        run_drive(drv, ["codec", "-out", out, "-seed", str(seed), "-nrand", str(6000 if q else 100000), "-tuples", str(6 if q else 30),
-                        "-parts", "16", "-stats", stf])
+        codec_args = ["codec", "-seed", str(seed), "-nrand", str(6000 if q else 100000), "-tuples", str(6 if q else 30), "-parts", "16"]
+        run_drive(drv, codec_args + ["-out", out, "-stats", stf])
         s = json.load(open(stf))
         recs += s["ops"]; lines += s["lines"]; batches += s["segments"]
         samples += [{"variant": vname, "pattern": x} for x in s.get("samples", [])]
@@ -769,6 +781,23 @@ def check_C07(work, prop, tier, seed, t0):
                 violations = 1
                 break
             os.remove(path)
+            # the batch alone is right in a fresh process: the failure needs what the process did before it (an encoder or
+            # decoder that keeps state). Run the whole command again in a fresh process.
+            import venv
+            variant = "386" if "386" in v.file else "plain"
+            job = venv.run_job(work, venv.Job("codec:%s" % variant, variant, codec_args, pattern=".[0-9]*"), "confirm")
+            again = [x for x in validate_many(work, [f for f in job.trace_files if os.path.getsize(f) > 0], ["Inv_C07"], module="TraceCodec") if x.invariant]
+            if job.rc != 0 or again:
+                rep = {"property": prop, "variant": variant, "args": codec_args, "env": {}, "pattern": ".[0-9]*", "invariants": ["Inv_C07"],
+                       "module": "TraceCodec", "kind": "inv", "label": "codec:%s" % variant, "invariant": v.invariant}
+                os.makedirs(REPLAY_DIR, exist_ok=True)
+                path = os.path.join(REPLAY_DIR, "%s-%s.cmd.json" % (prop, hashlib.md5(json.dumps(rep, sort_keys=True).encode()).hexdigest()[:12]))
+                json.dump(rep, open(path, "w"), indent=1)
+                print("VIOLATION property=%s replay=%s" % (prop, path), flush=True)
+                e = json.loads(seg[-1])
+                print("  Inv_C07 fails in a batch of type %s (width %d); the batch alone is right in a fresh process: encoder/decoder state" % (e["ty"], e["w"]), flush=True)
+                violations = 1
+                break
             raise Infra("codec violation did not reproduce")
     # conformance to the transcribed design (informative only)
     design = None
